@@ -260,6 +260,14 @@ pub fn run(ctx: &mut Ctx, replay: Option<&str>) {
             let mut r = ctx.rng.fork(i as u64);
             cases.push(gen_issue(&mut r, ctx.tier));
         }
+        // outside the quantifier (a user cnf together with a bound holder key) but inside the model: compared with the model only
+        for (k, cnf) in [json!({"kid": "user-key-id"}), json!({"jwk": {"kty": "EC", "crv": "P-256", "x": "u"}, "kid": "k"}), json!("a string"), json!([1])].into_iter().enumerate() {
+            for st in [Strategy::None, Strategy::Custom(vec!["$.other".into()]), Strategy::Top, Strategy::Custom(vec!["$.cnf".into()])] {
+                let claims = json!({"iss": "https://issuer.example", "exp": crate::imp::now() + 100000, "cnf": cnf, "other": 1});
+                cases.push(IssueArgs { claims, strategy: st, holder: Some(if k % 2 == 0 { KeyId::HolderEc } else { KeyId::HolderEd }), decoy: false, fmt: if k % 2 == 0 { Fmt::Compact } else { Fmt::Json }, key: KeyId::IssuerEc, alg: None, queue: None });
+                ctx.count("stream.user_cnf_with_holder_key(correspondence only)");
+            }
+        }
         // names that look like syntax, registered claim names, a user-supplied cnf, deep chains
         for f in special_flows(&mut ctx.rng.fork(9_999_991), ctx.tier) {
             cases.push(f.issue);
@@ -472,6 +480,9 @@ pub fn run(ctx: &mut Ctx, replay: Option<&str>) {
         if spec.get("hidden").is_none() || spec.get("strategy_ok").is_none() {
             // the specification did not answer within its allowance (driver failure): nothing to judge against
             ctx.skip_model("spec-answer-missing");
+            continue;
+        }
+        if a.holder.is_some() && a.claims.get("cnf").is_some() {
             continue;
         }
         ctx.oracle_checks += 1;
